@@ -1,11 +1,15 @@
 package harness
 
 import (
+	"context"
 	"fmt"
 	"runtime"
+	"sync"
 	"testing"
 	"testing/synctest"
 	"time"
+
+	"github.com/lightninglabs/lightning-node-connect/gbn"
 )
 
 // C13: keepalive. (a) dead peer: the transport goes silent with 0 .. more than N
@@ -151,6 +155,80 @@ func TestGenC13(t *testing.T) {
 	}
 	_ = r
 	_ = synctest.Wait
+	// (c) rendezvous transport, real time: a send returns only when the peer has taken the packet, and for a ping
+	// only after the peer's ACK has come back and been processed. A live peer that answers at once is never closed,
+	// whatever the order in which the two goroutines of the endpoint get to run (ping interval > pong timeout).
+	for _, pp := range [][2]time.Duration{{400 * time.Millisecond, 150 * time.Millisecond}, {300 * time.Millisecond, 250 * time.Millisecond}} {
+		ctx, cancel := context.WithCancel(context.Background())
+		var inbox [2]chan []byte
+		inbox[0], inbox[1] = make(chan []byte), make(chan []byte)
+		var ackSeen [2]chan struct{}
+		ackSeen[0], ackSeen[1] = make(chan struct{}, 64), make(chan struct{}, 64)
+		mk := func(x int) (func(context.Context, []byte) error, func(context.Context) ([]byte, error)) {
+			return func(ctx context.Context, b []byte) error {
+					c := append([]byte{}, b...)
+					select {
+					case inbox[1-x] <- c:
+					case <-ctx.Done():
+						return ctx.Err()
+					}
+					if len(c) == 4 && c[0] == 2 && c[3] == 1 { // a ping: wait for its ACK to have been handled
+						select {
+						case <-ackSeen[x]:
+							time.Sleep(5 * time.Millisecond)
+						case <-time.After(100 * time.Millisecond):
+						case <-ctx.Done():
+						}
+					}
+					return nil
+				}, func(ctx context.Context) ([]byte, error) {
+					select {
+					case b := <-inbox[x]:
+						if len(b) == 2 && b[0] == 3 {
+							select {
+							case ackSeen[x] <- struct{}{}:
+							default:
+							}
+						}
+						return b, nil
+					case <-ctx.Done():
+						return nil, ctx.Err()
+					}
+				}
+		}
+		var conns [2]*gbn.GoBackNConn
+		var hs sync.WaitGroup
+		hs.Add(2)
+		go func() {
+			defer hs.Done()
+			sf, rf := mk(1)
+			if c, err := gbn.NewServerConn(ctx, sf, rf); err == nil {
+				conns[1] = c
+			}
+		}()
+		go func() {
+			defer hs.Done()
+			sf, rf := mk(0)
+			if c, err := gbn.NewClientConn(ctx, 3, sf, rf, gbn.WithTimeoutOptions(gbn.WithKeepalivePing(pp[0], pp[1]))); err == nil {
+				conns[0] = c
+			}
+		}()
+		hs.Wait()
+		q.stat("rendezvous_cases", 1)
+		if conns[0] == nil || conns[1] == nil {
+			q.fail("c13:setup-handshake-failed", "rendezvous transport")
+			cancel()
+			continue
+		}
+		time.Sleep(3*pp[0] + 2*pp[1]) // several ping rounds on an idle link
+		err := conns[0].Send([]byte("still-there"))
+		q.check(err == nil, "c13:live-peer-closed:rendezvous-transport", func() string {
+			return fmt.Sprintf("ping %v pong %v, the peer ACKs every ping before the ping's send call returns: after %v of idling Send fails with %v", pp[0], pp[1], 3*pp[0]+2*pp[1], err)
+		})
+		cancel()
+		_ = conns[0].Close()
+		_ = conns[1].Close()
+	}
 	q.sample("dead peer: (ping,pong) in {(5,3),(7,3),(1,1),(2,5)} s x N in {1,3,20} x queued in {0,1,N-1,N,N+3} x silence offset {0,0.3 s,ping/2,ping-1ms}; live peer: idle 600 s (1 h thorough) with one-way latencies {0,100ms,pong/4,pong/2-1ms}")
 }
 
